@@ -112,6 +112,18 @@ func check(c Case) error {
 		defer func() { _ = recover() }() // that layout need not be in the domain: whatever happens to it is not judged
 		_, _ = cut(flipped, applyCase(c.Seq, c.CaseMask))
 	}()
+	// and the same string with another enzyme first (a built-in one, or the same site with another geometry)
+	func() {
+		defer func() { _ = recover() }()
+		o := c
+		o.ByName = false
+		if c.Enzyme.Name == "custom" {
+			o.Enzyme.Skip, o.Enzyme.OverhangLen = c.Enzyme.Skip+1, 1+c.Enzyme.OverhangLen%6
+		} else {
+			o.Enzyme = refclone.BuiltIn[map[string]string{"BsaI": "BbsI", "BbsI": "BtgZI", "BtgZI": "BsaI"}[c.Enzyme.Name]]
+		}
+		_, _ = cut(o, applyCase(c.Seq, c.CaseMask))
+	}()
 	for _, r := range rotations(c) {
 		if c.Circular && exclude && refclone.InDoublingLossZone(want, L.N, c.Enzyme, len(c.Enzyme.Site), r) {
 			vk.CountExcluded("rotation needs a site occurrence outside the doubled stored sequence (K-C10-1)")
